@@ -54,6 +54,7 @@ def run_unit(mod, unit, idx, tier, only=None):
     U.only = only
     signal.signal(signal.SIGALRM, _alarm)
     signal.alarm(UNIT_TIMEOUT)
+    t0 = time.time()
     try:
         mod.run(unit, U, tier, only)
     except HarnessError:
@@ -66,6 +67,8 @@ def run_unit(mod, unit, idx, tier, only=None):
         U.mismatch("exception:" + type(e).__name__, only, f"{e!s:.600} @ {where}")
     finally:
         signal.alarm(0)
+        if isinstance(unit, dict) and "leg" in unit:
+            U.times["leg_ms:" + str(unit["leg"])] += int((time.time() - t0) * 1000)
     return U
 
 
@@ -77,7 +80,7 @@ def _work(args):
         nrep = 0
         for idx, unit in batch:
             U = run_unit(mod, unit, idx, tier)
-            if idx % 64 == 0 or U.mismatches:
+            if idx % 64 == 0 or any(m["finding"] is None for m in U.mismatches):
                 # determinism: the same unit must give the same observation digest twice
                 U2 = run_unit(mod, unit, idx, tier)
                 nrep += 1
@@ -158,6 +161,7 @@ def write_evidence(pid, mod, tier, seed, R, wall, nviol, known_seen, nunits, nwo
         "caps_hit": R.caps,
         "determinism_replays": int(R.c["determinism_replays"]),
         "known_findings_seen": {k: int(v) for k, v in known_seen.items()},
+        "cpu_ms_per_leg": {k: int(v) for k, v in sorted(R.times.items())},
         "other_counts": {k: int(v) for k, v in sorted(R.c.items())
                          if k not in ("evaluations", "nontrivial", "states", "transitions", "traces",
                                       "determinism_replays")},
